@@ -27,8 +27,8 @@ import (
 
 // ConfigData the config for this module
 type ConfigData struct {
-	Version string
-	Config  map[string][]ProductRuleData
+	Version *string
+	Config  *map[string][]ProductRuleData
 }
 
 // ProductRuleData config for one product line
@@ -43,12 +43,21 @@ type ProductRuleData struct {
 }
 
 func (cd *ConfigData) toConfig() (*Config, error) {
+	// a file without these members (e.g. the JSON document "null" or "{}")
+	// is not a rule file
+	if cd.Version == nil {
+		return nil, fmt.Errorf("mod_user: no Version")
+	}
+	if cd.Config == nil {
+		return nil, fmt.Errorf("mod_user: no Config")
+	}
+
 	config := &Config{
-		Version:  cd.Version,
+		Version:  *cd.Version,
 		Products: map[string][]ProductRule{},
 	}
 
-	for name, rules := range cd.Config {
+	for name, rules := range *cd.Config {
 		if len(rules) == 0 {
 			return nil, fmt.Errorf("mod_user: product %s is nil", name)
 		}
